@@ -24,6 +24,7 @@ import (
 	"fmt"
 	"go/ast"
 	"go/constant"
+	"go/printer"
 	"go/token"
 	"go/types"
 	"os"
@@ -39,6 +40,7 @@ type target struct {
 	Mod    string   // directory under modules/
 	Pkg    string   // package path suffix below the module ("keeper", "types", "types/v1")
 	Func   string   // "Name" or "Recv.Name"
+	Census bool     // only the rejecting guards of the function are listed (Gen `guards`), nothing is translated
 	Locals []string // fragment mode: the assigned variables whose right-hand sides are translated
 	Lean   string   // Lean name of the definition (fragment mode: prefix)
 	Group  string   // output file Gen/Pure<Group>.lean (one per property family, so that a change in one module cannot break another property's obligations)
@@ -161,6 +163,148 @@ var targets = []target{
 		Locals: []string{"communityTaxCoin"}},
 	{Group: "TokenFee", Mod: "token", Pkg: "keeper", Func: "calcFeeByBase", Lean: "calcFeeByBase",
 		Locals: []string{"actualFee"}},
+	// store keys: whole functions over byte strings (package-level prefixes are read as opaque values)
+	{Group: "Keys", Mod: "oracle", Pkg: "types", Func: "GetFeedKey", Lean: "OracleGetFeedKey", Opaque: true},
+	{Group: "Keys", Mod: "oracle", Pkg: "types", Func: "GetReqCtxIDKey", Lean: "OracleGetReqCtxIDKey", Opaque: true},
+	{Group: "Keys", Mod: "oracle", Pkg: "types", Func: "GetFeedValuePrefixKey", Lean: "OracleGetFeedValuePrefixKey", Opaque: true},
+	{Group: "Keys", Mod: "random", Pkg: "types", Func: "KeyRandom", Lean: "RandomKeyRandom", Opaque: true},
+	{Group: "Keys", Mod: "random", Pkg: "types", Func: "KeyRandomRequestQueue", Lean: "RandomKeyRequestQueue", Opaque: true},
+	{Group: "Keys", Mod: "random", Pkg: "types", Func: "KeyRandomRequestQueueSubspace", Lean: "RandomKeyRequestQueueSubspace", Opaque: true},
+	{Group: "Keys", Mod: "random", Pkg: "types", Func: "KeyOracleRandomRequest", Lean: "RandomKeyOracleRequest", Opaque: true},
+	{Group: "Keys", Mod: "farm", Pkg: "types", Func: "KeyFarmPool", Lean: "FarmKeyFarmPool", Opaque: true},
+	{Group: "Keys", Mod: "farm", Pkg: "types", Func: "KeyRewardRule", Lean: "FarmKeyRewardRule", Opaque: true},
+	{Group: "Keys", Mod: "farm", Pkg: "types", Func: "PrefixRewardRule", Lean: "FarmPrefixRewardRule", Opaque: true},
+	{Group: "Keys", Mod: "farm", Pkg: "types", Func: "KeyFarmInfo", Lean: "FarmKeyFarmInfo", Opaque: true},
+	{Group: "Keys", Mod: "farm", Pkg: "types", Func: "PrefixFarmInfo", Lean: "FarmPrefixFarmInfo", Opaque: true},
+	{Group: "Keys", Mod: "farm", Pkg: "types", Func: "KeyActiveFarmPool", Lean: "FarmKeyActiveFarmPool", Opaque: true},
+	{Group: "Keys", Mod: "farm", Pkg: "types", Func: "PrefixActiveFarmPool", Lean: "FarmPrefixActiveFarmPool", Opaque: true},
+	{Group: "Keys", Mod: "farm", Pkg: "types", Func: "KeyEscrowInfo", Lean: "FarmKeyEscrowInfo", Opaque: true},
+	{Group: "Keys", Mod: "htlc", Pkg: "types", Func: "GetHTLCKey", Lean: "HtlcGetHTLCKey", Opaque: true},
+	{Group: "Keys", Mod: "htlc", Pkg: "types", Func: "GetHTLCExpiredQueueKey", Lean: "HtlcGetHTLCExpiredQueueKey", Opaque: true},
+	{Group: "Keys", Mod: "htlc", Pkg: "types", Func: "GetHTLCExpiredQueueSubspace", Lean: "HtlcGetHTLCExpiredQueueSubspace", Opaque: true},
+	{Group: "Keys", Mod: "htlc", Pkg: "types", Func: "GetAssetSupplyKey", Lean: "HtlcGetAssetSupplyKey", Opaque: true},
+	{Group: "Keys", Mod: "mt", Pkg: "types", Func: "KeyDenom", Lean: "MtKeyDenom", Opaque: true},
+	{Group: "Keys", Mod: "service", Pkg: "types", Func: "GetServiceDefinitionKey", Lean: "ServiceGetServiceDefinitionKey", Opaque: true},
+	{Group: "Keys", Mod: "service", Pkg: "types", Func: "GetServiceBindingKey", Lean: "ServiceGetServiceBindingKey", Opaque: true},
+	{Group: "Keys", Mod: "service", Pkg: "types", Func: "GetRequestContextKey", Lean: "ServiceGetRequestContextKey", Opaque: true},
+	{Group: "Keys", Mod: "service", Pkg: "types", Func: "GetExpiredRequestBatchKey", Lean: "ServiceGetExpiredRequestBatchKey", Opaque: true},
+	{Group: "Keys", Mod: "service", Pkg: "types", Func: "GetNewRequestBatchKey", Lean: "ServiceGetNewRequestBatchKey", Opaque: true},
+	{Group: "Keys", Mod: "service", Pkg: "types", Func: "GetExpiredRequestBatchSubspace", Lean: "ServiceGetExpiredRequestBatchSubspace", Opaque: true},
+	{Group: "Keys", Mod: "service", Pkg: "types", Func: "GetNewRequestBatchSubspace", Lean: "ServiceGetNewRequestBatchSubspace", Opaque: true},
+	{Group: "Keys", Mod: "service", Pkg: "types", Func: "GetExpiredRequestBatchHeightKey", Lean: "ServiceGetExpiredRequestBatchHeightKey", Opaque: true},
+	{Group: "Keys", Mod: "service", Pkg: "types", Func: "GetNewRequestBatchHeightKey", Lean: "ServiceGetNewRequestBatchHeightKey", Opaque: true},
+	{Group: "Keys", Mod: "service", Pkg: "types", Func: "GetRequestKey", Lean: "ServiceGetRequestKey", Opaque: true},
+	{Group: "Keys", Mod: "service", Pkg: "types", Func: "GetActiveRequestKeyByID", Lean: "ServiceGetActiveRequestKeyByID", Opaque: true},
+	{Group: "Keys", Mod: "service", Pkg: "types", Func: "GetResponseKey", Lean: "ServiceGetResponseKey", Opaque: true},
+	{Group: "Keys", Mod: "service", Pkg: "types", Func: "GetEarnedFeesKey", Lean: "ServiceGetEarnedFeesKey", Opaque: true},
+	{Group: "Keys", Mod: "service", Pkg: "types", Func: "GetEarnedFeesSubspace", Lean: "ServiceGetEarnedFeesSubspace", Opaque: true},
+	{Group: "Keys", Mod: "service", Pkg: "types", Func: "GetOwnerEarnedFeesKey", Lean: "ServiceGetOwnerEarnedFeesKey", Opaque: true},
+	{Group: "Keys", Mod: "service", Pkg: "types", Func: "GetOwnerEarnedFeesSubspace", Lean: "ServiceGetOwnerEarnedFeesSubspace", Opaque: true},
+	{Group: "Keys", Mod: "record", Pkg: "types", Func: "GetRecordKey", Lean: "RecordGetRecordKey", Opaque: true},
+	{Group: "Keys", Mod: "token", Pkg: "types", Func: "KeySymbol", Lean: "TokenKeySymbol", Opaque: true},
+	{Group: "Keys", Mod: "token", Pkg: "types", Func: "KeyMinUint", Lean: "TokenKeyMinUint", Opaque: true},
+	{Group: "Keys", Mod: "token", Pkg: "types", Func: "KeyContract", Lean: "TokenKeyContract", Opaque: true},
+	{Group: "Keys", Mod: "token", Pkg: "types", Func: "KeyTokens", Lean: "TokenKeyTokens", Opaque: true},
+	{Group: "Keys", Mod: "token", Pkg: "types", Func: "KeyBurnTokenAmt", Lean: "TokenKeyBurnTokenAmt", Opaque: true},
+	{Group: "Keys", Mod: "coinswap", Pkg: "types", Func: "GetPoolKey", Lean: "CoinswapGetPoolKey", Opaque: true},
+	{Group: "Keys", Mod: "coinswap", Pkg: "types", Func: "GetLptDenomKey", Lean: "CoinswapGetLptDenomKey", Opaque: true},
+	// census-only: the handlers around the translated arithmetic — their rejecting guards are listed, not translated
+	{Group: "Coinswap", Mod: "coinswap", Pkg: "keeper", Func: "Keeper.Swap", Lean: "Keeper.Swap", Census: true},
+	{Group: "Coinswap", Mod: "coinswap", Pkg: "keeper", Func: "Keeper.swapCoins", Lean: "Keeper.swapCoins", Census: true},
+	{Group: "Coinswap", Mod: "coinswap", Pkg: "keeper", Func: "Keeper.CreatePool", Lean: "Keeper.CreatePool", Census: true},
+	{Group: "Coinswap", Mod: "coinswap", Pkg: "keeper", Func: "Keeper.ValidatePool", Lean: "Keeper.ValidatePool", Census: true},
+	{Group: "Coinswap", Mod: "coinswap", Pkg: "keeper", Func: "msgServer.AddLiquidity", Lean: "msgServer.AddLiquidity", Census: true},
+	{Group: "Coinswap", Mod: "coinswap", Pkg: "keeper", Func: "msgServer.AddUnilateralLiquidity", Lean: "msgServer.AddUnilateralLiquidity", Census: true},
+	{Group: "Coinswap", Mod: "coinswap", Pkg: "keeper", Func: "msgServer.RemoveLiquidity", Lean: "msgServer.RemoveLiquidity", Census: true},
+	{Group: "Coinswap", Mod: "coinswap", Pkg: "keeper", Func: "msgServer.RemoveUnilateralLiquidity", Lean: "msgServer.RemoveUnilateralLiquidity", Census: true},
+	{Group: "Coinswap", Mod: "coinswap", Pkg: "keeper", Func: "msgServer.SwapCoin", Lean: "msgServer.SwapCoin", Census: true},
+	{Group: "Htlc", Mod: "htlc", Pkg: "keeper", Func: "Keeper.CreateHTLC", Lean: "Keeper.CreateHTLC", Census: true},
+	{Group: "Htlc", Mod: "htlc", Pkg: "keeper", Func: "Keeper.createHTLC", Lean: "Keeper.createHTLC", Census: true},
+	{Group: "Htlc", Mod: "htlc", Pkg: "keeper", Func: "Keeper.ClaimHTLC", Lean: "Keeper.ClaimHTLC", Census: true},
+	{Group: "Htlc", Mod: "htlc", Pkg: "keeper", Func: "Keeper.claimHTLC", Lean: "Keeper.claimHTLC", Census: true},
+	{Group: "Htlc", Mod: "htlc", Pkg: "keeper", Func: "Keeper.RefundHTLC", Lean: "Keeper.RefundHTLC", Census: true},
+	{Group: "Htlc", Mod: "htlc", Pkg: "keeper", Func: "Keeper.refundHTLC", Lean: "Keeper.refundHTLC", Census: true},
+	{Group: "Htlc", Mod: "htlc", Pkg: "keeper", Func: "Keeper.ValidateLiveAsset", Lean: "Keeper.ValidateLiveAsset", Census: true},
+	{Group: "Htlc", Mod: "htlc", Pkg: "keeper", Func: "msgServer.CreateHTLC", Lean: "msgServer.CreateHTLC", Census: true},
+	{Group: "Htlc", Mod: "htlc", Pkg: "keeper", Func: "msgServer.ClaimHTLC", Lean: "msgServer.ClaimHTLC", Census: true},
+	{Group: "Farm", Mod: "farm", Pkg: "keeper", Func: "Keeper.Stake", Lean: "Keeper.Stake", Census: true},
+	{Group: "Farm", Mod: "farm", Pkg: "keeper", Func: "Keeper.Unstake", Lean: "Keeper.Unstake", Census: true},
+	{Group: "Farm", Mod: "farm", Pkg: "keeper", Func: "Keeper.Harvest", Lean: "Keeper.Harvest", Census: true},
+	{Group: "Farm", Mod: "farm", Pkg: "keeper", Func: "Keeper.Refund", Lean: "Keeper.Refund", Census: true},
+	{Group: "Farm", Mod: "farm", Pkg: "keeper", Func: "Keeper.CreatePool", Lean: "Keeper.CreatePool", Census: true},
+	{Group: "Farm", Mod: "farm", Pkg: "keeper", Func: "Keeper.DestroyPool", Lean: "Keeper.DestroyPool", Census: true},
+	{Group: "Farm", Mod: "farm", Pkg: "keeper", Func: "Keeper.createPool", Lean: "Keeper.createPool", Census: true},
+	{Group: "Farm", Mod: "farm", Pkg: "keeper", Func: "msgServer.CreatePool", Lean: "msgServer.CreatePool", Census: true},
+	{Group: "Farm", Mod: "farm", Pkg: "keeper", Func: "msgServer.CreatePoolWithCommunityPool", Lean: "msgServer.CreatePoolWithCommunityPool", Census: true},
+	{Group: "Farm", Mod: "farm", Pkg: "keeper", Func: "msgServer.DestroyPool", Lean: "msgServer.DestroyPool", Census: true},
+	{Group: "Farm", Mod: "farm", Pkg: "keeper", Func: "msgServer.AdjustPool", Lean: "msgServer.AdjustPool", Census: true},
+	{Group: "Farm", Mod: "farm", Pkg: "keeper", Func: "msgServer.Stake", Lean: "msgServer.Stake", Census: true},
+	{Group: "Farm", Mod: "farm", Pkg: "keeper", Func: "msgServer.Unstake", Lean: "msgServer.Unstake", Census: true},
+	{Group: "Farm", Mod: "farm", Pkg: "keeper", Func: "msgServer.Harvest", Lean: "msgServer.Harvest", Census: true},
+	{Group: "Service", Mod: "service", Pkg: "keeper", Func: "Keeper.RefundServiceFee", Lean: "Keeper.RefundServiceFee", Census: true},
+	{Group: "Service", Mod: "service", Pkg: "keeper", Func: "Keeper.WithdrawEarnedFees", Lean: "Keeper.WithdrawEarnedFees", Census: true},
+	{Group: "Service", Mod: "service", Pkg: "keeper", Func: "Keeper.AddServiceBinding", Lean: "Keeper.AddServiceBinding", Census: true},
+	{Group: "Service", Mod: "service", Pkg: "keeper", Func: "Keeper.UpdateServiceBinding", Lean: "Keeper.UpdateServiceBinding", Census: true},
+	{Group: "Service", Mod: "service", Pkg: "keeper", Func: "Keeper.DisableServiceBinding", Lean: "Keeper.DisableServiceBinding", Census: true},
+	{Group: "Service", Mod: "service", Pkg: "keeper", Func: "Keeper.EnableServiceBinding", Lean: "Keeper.EnableServiceBinding", Census: true},
+	{Group: "Service", Mod: "service", Pkg: "keeper", Func: "Keeper.RefundDeposit", Lean: "Keeper.RefundDeposit", Census: true},
+	{Group: "Service", Mod: "service", Pkg: "keeper", Func: "Keeper.DeductServiceFees", Lean: "Keeper.DeductServiceFees", Census: true},
+	{Group: "Service", Mod: "service", Pkg: "keeper", Func: "Keeper.validateDeposit", Lean: "Keeper.validateDeposit", Census: true},
+	{Group: "ServiceSched", Mod: "service", Pkg: "keeper", Func: "Keeper.CreateRequestContext", Lean: "Keeper.CreateRequestContext", Census: true},
+	{Group: "ServiceSched", Mod: "service", Pkg: "keeper", Func: "Keeper.PauseRequestContext", Lean: "Keeper.PauseRequestContext", Census: true},
+	{Group: "ServiceSched", Mod: "service", Pkg: "keeper", Func: "Keeper.KillRequestContext", Lean: "Keeper.KillRequestContext", Census: true},
+	{Group: "ServiceSched", Mod: "service", Pkg: "keeper", Func: "Keeper.AddResponse", Lean: "Keeper.AddResponse", Census: true},
+	{Group: "ServiceSched", Mod: "service", Pkg: "keeper", Func: "Keeper.CheckAuthority", Lean: "Keeper.CheckAuthority", Census: true},
+	{Group: "ServiceSched", Mod: "service", Pkg: "keeper", Func: "Keeper.validateServiceFeeCap", Lean: "Keeper.validateServiceFeeCap", Census: true},
+	{Group: "ServiceSched", Mod: "service", Pkg: "keeper", Func: "Keeper.CompleteBatch", Lean: "Keeper.CompleteBatch", Census: true},
+	{Group: "ServiceSched", Mod: "service", Pkg: "keeper", Func: "Keeper.CompleteServiceContext", Lean: "Keeper.CompleteServiceContext", Census: true},
+	{Group: "ServiceSched", Mod: "service", Pkg: "keeper", Func: "Keeper.OnRequestContextPaused", Lean: "Keeper.OnRequestContextPaused", Census: true},
+	{Group: "TokenFee", Mod: "token", Pkg: "keeper", Func: "Keeper.IssueToken", Lean: "Keeper.IssueToken", Census: true},
+	{Group: "TokenFee", Mod: "token", Pkg: "keeper", Func: "Keeper.BurnToken", Lean: "Keeper.BurnToken", Census: true},
+	{Group: "TokenFee", Mod: "token", Pkg: "keeper", Func: "Keeper.TransferTokenOwner", Lean: "Keeper.TransferTokenOwner", Census: true},
+	{Group: "TokenFee", Mod: "token", Pkg: "keeper", Func: "Keeper.SwapFeeToken", Lean: "Keeper.SwapFeeToken", Census: true},
+	{Group: "TokenFee", Mod: "token", Pkg: "keeper", Func: "msgServer.IssueToken", Lean: "msgServer.IssueToken", Census: true},
+	{Group: "TokenFee", Mod: "token", Pkg: "keeper", Func: "msgServer.EditToken", Lean: "msgServer.EditToken", Census: true},
+	{Group: "TokenFee", Mod: "token", Pkg: "keeper", Func: "msgServer.MintToken", Lean: "msgServer.MintToken", Census: true},
+	{Group: "TokenFee", Mod: "token", Pkg: "keeper", Func: "msgServer.BurnToken", Lean: "msgServer.BurnToken", Census: true},
+	{Group: "TokenFee", Mod: "token", Pkg: "keeper", Func: "msgServer.TransferTokenOwner", Lean: "msgServer.TransferTokenOwner", Census: true},
+	{Group: "TokenFee", Mod: "token", Pkg: "keeper", Func: "msgServer.SwapFeeToken", Lean: "msgServer.SwapFeeToken", Census: true},
+	{Group: "Nft", Mod: "nft", Pkg: "keeper", Func: "Keeper.IssueDenom", Lean: "Keeper.IssueDenom", Census: true},
+	{Group: "Nft", Mod: "nft", Pkg: "keeper", Func: "Keeper.EditNFT", Lean: "Keeper.EditNFT", Census: true},
+	{Group: "Nft", Mod: "nft", Pkg: "keeper", Func: "Keeper.TransferNFT", Lean: "Keeper.TransferNFT", Census: true},
+	{Group: "Nft", Mod: "nft", Pkg: "keeper", Func: "Keeper.BurnNFT", Lean: "Keeper.BurnNFT", Census: true},
+	{Group: "Nft", Mod: "nft", Pkg: "keeper", Func: "Keeper.TransferDenom", Lean: "Keeper.TransferDenom", Census: true},
+	{Group: "Nft", Mod: "nft", Pkg: "keeper", Func: "Keeper.RemoveNFT", Lean: "Keeper.RemoveNFT", Census: true},
+	{Group: "Nft", Mod: "nft", Pkg: "keeper", Func: "Keeper.SaveNFT", Lean: "Keeper.SaveNFT", Census: true},
+	{Group: "Mt", Mod: "mt", Pkg: "keeper", Func: "Keeper.Transfer", Lean: "Keeper.Transfer", Census: true},
+	{Group: "Mt", Mod: "mt", Pkg: "keeper", Func: "Keeper.IssueDenom", Lean: "Keeper.IssueDenom", Census: true},
+	{Group: "Mt", Mod: "mt", Pkg: "keeper", Func: "Keeper.IssueMT", Lean: "Keeper.IssueMT", Census: true},
+	{Group: "Mt", Mod: "mt", Pkg: "keeper", Func: "Keeper.MintMT", Lean: "Keeper.MintMT", Census: true},
+	{Group: "Mt", Mod: "mt", Pkg: "keeper", Func: "Keeper.EditMT", Lean: "Keeper.EditMT", Census: true},
+	{Group: "Mt", Mod: "mt", Pkg: "keeper", Func: "Keeper.TransferOwner", Lean: "Keeper.TransferOwner", Census: true},
+	{Group: "Mt", Mod: "mt", Pkg: "keeper", Func: "Keeper.BurnMT", Lean: "Keeper.BurnMT", Census: true},
+	{Group: "Mt", Mod: "mt", Pkg: "keeper", Func: "Keeper.TransferDenomOwner", Lean: "Keeper.TransferDenomOwner", Census: true},
+	{Group: "Mt", Mod: "mt", Pkg: "keeper", Func: "Keeper.Authorize", Lean: "Keeper.Authorize", Census: true},
+	{Group: "Mt", Mod: "mt", Pkg: "keeper", Func: "msgServer.IssueDenom", Lean: "msgServer.IssueDenom", Census: true},
+	{Group: "Mt", Mod: "mt", Pkg: "keeper", Func: "msgServer.MintMT", Lean: "msgServer.MintMT", Census: true},
+	{Group: "Mt", Mod: "mt", Pkg: "keeper", Func: "msgServer.EditMT", Lean: "msgServer.EditMT", Census: true},
+	{Group: "Mt", Mod: "mt", Pkg: "keeper", Func: "msgServer.TransferMT", Lean: "msgServer.TransferMT", Census: true},
+	{Group: "Mt", Mod: "mt", Pkg: "keeper", Func: "msgServer.BurnMT", Lean: "msgServer.BurnMT", Census: true},
+	{Group: "Mt", Mod: "mt", Pkg: "keeper", Func: "msgServer.TransferDenom", Lean: "msgServer.TransferDenom", Census: true},
+	{Group: "Oracle", Mod: "oracle", Pkg: "keeper", Func: "Keeper.CreateFeed", Lean: "Keeper.CreateFeed", Census: true},
+	{Group: "Oracle", Mod: "oracle", Pkg: "keeper", Func: "Keeper.StartFeed", Lean: "Keeper.StartFeed", Census: true},
+	{Group: "Oracle", Mod: "oracle", Pkg: "keeper", Func: "Keeper.PauseFeed", Lean: "Keeper.PauseFeed", Census: true},
+	{Group: "Oracle", Mod: "oracle", Pkg: "keeper", Func: "Keeper.HandlerResponse", Lean: "Keeper.HandlerResponse", Census: true},
+	{Group: "Oracle", Mod: "oracle", Pkg: "keeper", Func: "Keeper.HandlerStateChanged", Lean: "Keeper.HandlerStateChanged", Census: true},
+	{Group: "Oracle", Mod: "oracle", Pkg: "keeper", Func: "msgServer.CreateFeed", Lean: "msgServer.CreateFeed", Census: true},
+	{Group: "Oracle", Mod: "oracle", Pkg: "keeper", Func: "msgServer.EditFeed", Lean: "msgServer.EditFeed", Census: true},
+	{Group: "Oracle", Mod: "oracle", Pkg: "keeper", Func: "msgServer.StartFeed", Lean: "msgServer.StartFeed", Census: true},
+	{Group: "Oracle", Mod: "oracle", Pkg: "keeper", Func: "msgServer.PauseFeed", Lean: "msgServer.PauseFeed", Census: true},
+	{Group: "Random", Mod: "random", Pkg: "keeper", Func: "Keeper.RequestRandom", Lean: "Keeper.RequestRandom", Census: true},
+	{Group: "Random", Mod: "random", Pkg: "keeper", Func: "Keeper.RequestService", Lean: "Keeper.RequestService", Census: true},
+	{Group: "Random", Mod: "random", Pkg: "keeper", Func: "Keeper.HandlerResponse", Lean: "Keeper.HandlerResponse", Census: true},
+	{Group: "Random", Mod: "random", Pkg: "keeper", Func: "Keeper.HandlerStateChanged", Lean: "Keeper.HandlerStateChanged", Census: true},
+	{Group: "Random", Mod: "random", Pkg: "keeper", Func: "msgServer.RequestRandom", Lean: "msgServer.RequestRandom", Census: true},
 }
 
 // ---------------------------------------------------------------------------------------------
@@ -375,6 +519,40 @@ func (t *tr) fieldPath(e ast.Expr) (string, bool) {
 	return "", false
 }
 
+// pkgBytesLit: the value of a package-level `var X = []byte{c1, c2, …}` of this package, all elements constant
+func (t *tr) pkgBytesLit(v *types.Var) (string, bool) {
+	for _, f := range t.pkg.Syntax {
+		for _, d := range f.Decls {
+			gd, ok := d.(*ast.GenDecl)
+			if !ok || gd.Tok != token.VAR {
+				continue
+			}
+			for _, sp := range gd.Specs {
+				vs := sp.(*ast.ValueSpec)
+				for i, nm := range vs.Names {
+					if t.pkg.TypesInfo.Defs[nm] != v || i >= len(vs.Values) {
+						continue
+					}
+					cl, ok := vs.Values[i].(*ast.CompositeLit)
+					if !ok {
+						return "", false
+					}
+					var bs []string
+					for _, el := range cl.Elts {
+						tv := t.pkg.TypesInfo.Types[el]
+						if tv.Value == nil || tv.Value.Kind() != constant.Int {
+							return "", false
+						}
+						bs = append(bs, tv.Value.ExactString())
+					}
+					return "(ByteArray.mk #[" + strings.Join(bs, ", ") + "])", true
+				}
+			}
+		}
+	}
+	return "", false
+}
+
 // expr translates e; fallible sub-computations are emitted as binds into out
 func (t *tr) expr(e ast.Expr, out *[]string) (string, kind) {
 	info := t.pkg.TypesInfo
@@ -405,7 +583,12 @@ func (t *tr) expr(e ast.Expr, out *[]string) (string, kind) {
 		if bk, ok := t.bound[x.Name]; ok {
 			return x.Name, bk
 		}
-		if _, isVar := info.ObjectOf(x).(*types.Var); isVar {
+		if v, isVar := info.ObjectOf(x).(*types.Var); isVar {
+			if k == kBytes && v.Pkg() != nil && v.Parent() == v.Pkg().Scope() {
+				if lit, ok := t.pkgBytesLit(v); ok {
+					return lit, k // a package-level `[]byte{…}` of constants (store prefixes): its value
+				}
+			}
 			return t.addParam(x.Name, k, x), k
 		}
 		t.fail(x, "identifier %s", x.Name)
@@ -1216,8 +1399,69 @@ func main() {
 	}
 }
 
+// guardCensus: every rejecting guard of a target function — an `if` whose body ends in the return of a non-nil error —
+// as "<Lean name>: [init; ]condition" in source order, whether or not its condition is inside the substrate. The
+// pinned copy in Props/Tie_<Group>.lean makes the removal, weakening or reordering of any of them a broken obligation.
+func guardCensus(p *packages.Package, fd *ast.FuncDecl, lean string) (out []string) {
+	src := func(n ast.Node) string {
+		var b strings.Builder
+		printer.Fprint(&b, p.Fset, n)
+		return strings.Join(strings.Fields(b.String()), " ")
+	}
+	// the statement in front of an `if`: the call whose error an `err != nil` guard inspects
+	prev := map[*ast.IfStmt]ast.Stmt{}
+	note := func(l []ast.Stmt) {
+		for i, st := range l {
+			if is, ok := st.(*ast.IfStmt); ok && i > 0 {
+				prev[is] = l[i-1]
+			}
+		}
+	}
+	ast.Inspect(fd.Body, func(n ast.Node) bool {
+		switch b := n.(type) {
+		case *ast.BlockStmt:
+			note(b.List)
+		case *ast.CaseClause:
+			note(b.Body)
+		}
+		return true
+	})
+	ast.Inspect(fd.Body, func(n ast.Node) bool {
+		is, ok := n.(*ast.IfStmt)
+		if !ok || len(is.Body.List) == 0 {
+			return true
+		}
+		rejects := false
+		switch l := is.Body.List[len(is.Body.List)-1].(type) {
+		case *ast.ReturnStmt:
+			if len(l.Results) > 0 {
+				e := l.Results[len(l.Results)-1]
+				rejects = kindOf(p.TypesInfo.TypeOf(e)) == kErr && types.ExprString(e) != "nil"
+			}
+		case *ast.ExprStmt:
+			if c, ok := l.X.(*ast.CallExpr); ok {
+				if id, ok := c.Fun.(*ast.Ident); ok && id.Name == "panic" {
+					rejects = true
+				}
+			}
+		}
+		if !rejects {
+			return true
+		}
+		e := lean + ": "
+		if is.Init != nil {
+			e += src(is.Init) + "; "
+		} else if as, ok := prev[is].(*ast.AssignStmt); ok && strings.Contains(src(is.Cond), "err") {
+			e += src(as) + "; "
+		}
+		out = append(out, e+src(is.Cond))
+		return true
+	})
+	return
+}
+
 func writeGroup(group, outLean string, load func(string) []*packages.Package) {
-	var defs, untranslated, names []string
+	var defs, untranslated, names, guards []string
 	knownGo := map[string]string{}
 	for _, tg := range targets {
 		if tg.Group != group {
@@ -1236,6 +1480,10 @@ func writeGroup(group, outLean string, load func(string) []*packages.Package) {
 		fd := findFunc(pkg, tg.Func)
 		if fd == nil {
 			untranslated = append(untranslated, tg.Lean+": function "+tg.Func+" not found in "+tg.Mod+"/"+tg.Pkg)
+			continue
+		}
+		guards = append(guards, guardCensus(pkg, fd, tg.Lean)...)
+		if tg.Census {
 			continue
 		}
 		if len(tg.Locals) > 0 || tg.Guards || tg.Conds || len(tg.Calls) > 0 {
@@ -1273,6 +1521,13 @@ func writeGroup(group, outLean string, load func(string) []*packages.Package) {
 	}
 	sb.WriteString("]\n\n/-- names of the translated definitions -/\ndef translated : List String := [")
 	for i, n := range names {
+		if i > 0 {
+			sb.WriteString(", ")
+		}
+		sb.WriteString(leanStr(n))
+	}
+	sb.WriteString("]\n\n/-- every rejecting guard of the translated functions, in source order -/\ndef guards : List String := [")
+	for i, n := range guards {
 		if i > 0 {
 			sb.WriteString(", ")
 		}
